@@ -47,6 +47,27 @@ CHECKS = {
     "C18": ("exploration", "seeded simulation of single/multi environment episodes (legal, flexible and invalid actions, mid-episode resets) across the configuration space; every observation/flag/action checked",
             "The Gymnasium contract must hold for every configuration and every step of every episode; environments are built from seeded configurations and driven through 1-3 episodes while every returned value is checked against the declared spaces, the current graph and the model.",
             "space membership demanded with use_padding=True only; known findings F10/F10b (spaces sized from one sample) are reported, not failed", "DESIGN 4 C18"),
+    "C03": ("exploration", "seeded simulation of solve() call histories on one reused solver object with injected time limits / deterministic CP-SAT budgets through the CpSolver constructor seam and a simulated clock; independent feasibility checker + exact reference optimum",
+            "Reuse leftovers, limit handling and the rebuild of the schedule depend on the history of calls on one solver object and on injected time budgets; seeded histories of 2-5 solves over tiny instances (zero durations, recirculation, irregular) are checked against an independent feasibility checker, an exact branch-and-bound optimum, dispatching-rule upper bounds, lower bounds and a fresh solver. The CP-SAT search itself is real native code pinned to one worker and a fixed seed (not simulated).",
+            "trusts sim/model.py opt_makespan; CP-SAT internals outside the simulator; benchmark bounds not re-checked in the quick tier", "DESIGN 4 C03"),
+    "C04": ("exploration", "seeded simulation of rule-solver runs (stepwise with the rule consulted before each step, query bursts and RNG perturbation in between, two dispatchers alternating under the module-global scorer; end-to-end under a simulated clock with stalls and jumps)",
+            "Rule choices depend on the reached state, on what was queried before, on the shared global scorer and RNG, and the metadata on the clock; the full rule x chooser x filter matrix is sampled and every selection compared with the rule's documented criterion on the reference model; termination is bounded liveness (n_ops steps).",
+            "any best operation is accepted; most-operations-remaining accepted under either reading", "DESIGN 4 C04"),
+    "C08": ("exploration", "seeded guided search over filtered dispatch histories of the real dispatcher for a witness reaching the exact optimum; bounded exhaustive confirmation on the single tiny instance before any report",
+            "The statement is a minimum over all filtered histories: seeded search finds a witness (makespan = exact optimum of the unfiltered problem) on each seeded tiny instance; only when no witness is found is that one instance's filtered tree exhausted to confirm, so a VIOLATION is never a sampling artefact.",
+            "trusts sim/model.py opt_makespan; instances <= 8 (quick) / 10 (thorough) operations", "DESIGN 4 C08"),
+    "C14": ("exploration", "seeded simulation: one instance object shared by many actors with deep snapshots after every op; serialisation round trips at seeded points; seeded corruption of durable job sequences under a deterministic call budget",
+            "Immutability must hold whatever sequence of dispatchers, solvers, observers, graph builders and environments touches the shared instance; rebuilding from durable sequences must accept exactly the acyclic ones and never hang. Both depend on histories / injected corruption and are simulated; the pure view definitions are checked as a by-product on the same instances.",
+            "corruptions are permutations; hang = deterministic Python-call budget exceeded", "DESIGN 4 C14"),
+    "C16": ("exploration", "seeded simulation of schedule-producing histories (dispatcher under filters, rule solver, CP-SAT, from_job_sequences); graphs compared with a reference specification, solved-graph critical path with the makespan",
+            "Builder = specification is checked on every instance the histories use (all four builders, node ids, edge set, edge types, lookup helpers); for every final schedule the solved graph must be acyclic with longest path <= makespan, = makespan when dispatcher-built.",
+            "double-typed edges accept either type", "DESIGN 4 C16"),
+    "C19": ("exploration", "seeded simulation of 1-3 generators interleaved with each other, a random-rule solver and global-RNG perturbation; same-seed twins built later / interleaved; isolation oracle against a solo reference run",
+            "Shape promises quantify over the parameter space and all draws; reproducibility is a promise about a shared randomness seam: every seeded generator's sequence inside an interleaved world is compared with the sequence it produces alone.",
+            "statistical clause (all machines drawn) only when a miss has probability < 1e-9", "DESIGN 4 C19"),
+    "C20": ("exploration", "seeded simulation of animation creation (history lengths 1-15 and 100-130) with a colour-coding stub plotter, permuted directory listings and stale frame directories, frames captured at the imageio seam; chart artists compared with the schedule",
+            "Frame order depends on file naming and directory listing order and only breaks for >= 100 frames; the simulator owns the listing order and the frame sink and decodes which prefix each frame shows. Bars / legend / axis of plot_gantt_chart are read from the matplotlib artists for partial and final schedules of seeded histories.",
+            "rendering (rasterisation, ffmpeg) not modelled; real GIF decoding only in the thorough tier", "DESIGN 4 C20"),
 }
 
 NOT_APPLICABLE = [
